@@ -24,15 +24,22 @@ MIN_DISTINCT = {"quick": 400, "thorough": 10000}
 EXCS = [ValueError, KeyError, IndexError, LookupError, ArithmeticError, ZeroDivisionError, TypeError, RuntimeError,
         AttributeError, OSError, AssertionError, NotImplementedError, UnicodeError, StopIteration, EOFError, TimeoutError]
 CATCH = [LookupError, ArithmeticError, ValueError, KeyError, Exception, OSError, RuntimeError, TypeError]
-REFSHAPES = ("list", "dict", "obj", "callable")
-SHAPES = ["scalar", "scalar", "tuple_mixed", "list", "dict", "obj", "callable", "passon", "tuple_plain", "nested_ref_tuple"]
+REFSHAPES = ("list", "dict", "obj", "callable")      # shapes that may be passed on
+SHAPES = ["scalar", "scalar", "tuple_mixed", "list", "dict", "obj", "callable", "passon", "tuple_plain", "nested_ref_tuple", "cls", "boundmethod"]
 
 
 class Tok(object):
     """mutable object carrying a token; never plain, so it travels by reference"""
+    made = 0
 
     def __init__(self, tag):
         self.tag = tag
+        self.n = 0
+        Tok.made += 1
+
+    def bump(self, k):
+        self.n += k
+        return (self.tag, self.n)
 
 
 def gen_program(rng, max_depth):
@@ -121,6 +128,12 @@ def summ(x, shape, invoke=True):
         return ("obj", rc.fingerprint(x.tag))
     if shape == "callable":
         return ("callable", (rc.fingerprint(x("ping")), x(None)) if invoke else None)
+    if shape == "cls":
+        # a class is a callable too: calling it runs the constructor once on the owner's side and hands back a reference
+        made = x("made-by-callee")
+        return ("cls", rc.fingerprint(made.tag), rc.fingerprint(made.bump(2)))
+    if shape == "boundmethod":
+        return ("boundmethod", rc.fingerprint(x(3)))
     if shape == "tuple_mixed":
         return ("tm", type(x) is tuple and len(x), x[0], rc.fingerprint(x[1][0]), x[2][0], rc.fingerprint(x[2][1].tag), x[3])
     if shape == "nested_ref_tuple":
@@ -212,6 +225,10 @@ class Worker(object):
             return {"tok": rng_tag}
         if shape == "obj":
             return Tok(rng_tag)
+        if shape == "cls":
+            return Tok
+        if shape == "boundmethod":
+            return Tok(rng_tag).bump
         if shape == "callable":
             def cb(x, tag=rng_tag, w=w):
                 w.cb_calls[tag] = w.cb_calls.get(tag, 0) + 1
